@@ -127,7 +127,7 @@ pub fn check(case: &Case) -> Result<Option<Obs>, (String, String)> {
                 let choices: Vec<u8> = sched.bytes().map(|b| b.wrapping_sub(b'0')).collect();
                 let (ra, rb, _) = super::proc::run_scheduled_pair(&dir, &c, &c, "openw,writef,rename,flock,unlink", &choices);
                 children += 1;
-                if ra.exit.is_success() { rb } else { ra }
+                match (ra.exit.is_success(), rb.exit.is_success()) { (true, false) if rb.exit.is_clean_failure() => ra, (false, true) if ra.exit.is_clean_failure() => rb, (true, true) => rb, _ => ra }
             }
             _ => run_child(&dir, &c),
         };
